@@ -205,7 +205,9 @@ func c04Monitor(run *ev.Run, logical bool) func(*wh.Step) {
 		if run.HistGet("accepted", cfgKey) == 1 {
 			run.Sample(map[string]any{"store": s.Env.Cfg.Store, "signers": s.Env.Cfg.Signers, "shape": s.Req.Meta.Shape, "kind": kind, "request": s.Req.Label, "result": string(s.Out.Bytes)})
 		}
-		sig := func(k string) string { return fmt.Sprintf("%s kind=%s shape=%s signers=%s", k, kind, s.Req.Meta.Shape, strings.Join(s.Env.Cfg.Signers, "+")) }
+		sig := func(k string) string {
+			return fmt.Sprintf("%s kind=%s shape=%s signers=%s", k, kind, s.Req.Meta.Shape, strings.Join(s.Env.Cfg.Signers, "+"))
+		}
 		text, sigs, ok := uni.SplitNote(s.Out.Bytes)
 		if !ok {
 			run.Report(sig("not-a-note"), fmt.Sprintf("accepted %q returned bytes that are not a note", s.Req.Label), s.Replay())
